@@ -6,6 +6,7 @@ from .. import inputs
 
 SPEC = dict(
     aux_translators=['__alias__'],
+    flag_inconsistent=True,      # a traced function whose re-execution branches differently has modified its (symbolic) arguments
     lean_modules=['SmVerif.Props.C17'],
     groups=[],
     partial=['the static part (AliasIR regenerated from the Python AST, checker proved sound in Lean) covers writes through local names; '
